@@ -507,6 +507,8 @@ class Run(object):
         self.problems = []
         self.nstmt = 0
         self.crash = None
+        self.nresume = 0      # fresh displays attached
+        self.nsplit = 0       # ... of which with active page != visible page
 
 
 def run_history(case, limit=60):
@@ -580,11 +582,29 @@ def _run(case, rec, res):
             return None
 
         res.fail = sync('attach (rebuild)')
+
+        def resume(tag):
+            """The 'resumed session redraws' clause, judged on the implementation: a FRESH display (new interface,
+            new reference consumer that has seen nothing) is attached the way Session.attach / a resumed session
+            does (queues.set + display.rebuild()); the rebuild signals alone must give it the whole picture."""
+            nonlocal cons
+            cons = Consumer()
+            s.attach(FakeInterface(rec))
+            res.nresume += 1
+            d = s._impl.display
+            if d.apagenum != d.vpagenum:
+                res.nsplit += 1
+            return sync(tag)
+
         for st in case['stmts']:
             if res.fail:
                 break
             mark = (len(rec.ops), len(rec.events))
             try:
+                if st == '@resume':
+                    res.nstmt += 1
+                    res.fail = resume('statement %d: a fresh display attached (rebuild)' % res.nstmt)
+                    continue
                 execute(s, st)
             except Exception as e:
                 # a host exception inside the interpreter ends the history (not this property's business);
@@ -597,10 +617,7 @@ def _run(case, rec, res):
             res.nstmt += 1
             res.fail = sync('statement %d %r' % (res.nstmt, st))
         if not res.fail and not res.crash and case.get('resume'):
-            # a second interface attached later must be able to redraw everything from the rebuild signals
-            cons = Consumer()
-            s._impl.display.rebuild()
-            res.fail = sync('resume (rebuild into a fresh display)')
+            res.fail = resume('the end of the history: a fresh display attached (rebuild)')
         res.final = None if res.crash else _page_state(rec, s._impl.display)
     finally:
         rec.started = False
@@ -683,7 +700,9 @@ class C35(core.Check):
                'of the 348-line Hercules mode, unreachable: VIEW PRINT to 25 is Tandy/PCjr only).')
     RULE = ('random histories (3-16 statements) of PRINT incl. wrap/scroll/control characters, CLS, COLOR, LOCATE, '
             'VIEW PRINT, SCREEN mode and page switches, WIDTH, KEY ON/OFF, PCOPY, PSET/LINE/CIRCLE/PUT/PAINT/VIEW, '
-            'video-memory POKE, console insert/delete/clear-line, on all 9 adapters + a DBCS codepage; after every '
+            'video-memory POKE, console insert/delete/clear-line, on all 9 adapters + a DBCS codepage, a third of them with '
+            'active page != visible page; at random points (`@resume`) and at the end a FRESH reference consumer is '
+            'attached via Session.attach (rebuild) and must show the whole picture; after every '
             'statement the reference consumer applied to the recorded signals must equal get_pixels()/get_chars() '
             '(oracle) and the model trace must equal the recorded writes/moves/signals. non-trivial = at least one '
             'signal beyond the initial rebuild; distinct by hash')
@@ -721,6 +740,13 @@ class C35(core.Check):
             {'cfg': {'video': 'tandy'}, 'stmts': ['LOCATE 25,1', '@linefeed'], 'resume': 1},
             {'cfg': {'video': 'hercules', 'width': 40}, 'stmts': ['SCREEN 3', 'LINE (0,340)-(9,347)', 'LOCATE 25,2',
                                                                  '@linefeed'], 'resume': 1},
+            # resume with active page != visible page (seeded C35b: rebuild resubmitting only the active page)
+            {'cfg': {'video': 'vga'}, 'stmts': ['PRINT "abc"', 'SCREEN ,,1,0', '@resume', 'PRINT "hidden"', '@resume',
+                                                'SCREEN ,,0,0'], 'resume': 1},
+            {'cfg': {'video': 'ega'}, 'stmts': ['SCREEN 7', 'LINE (3,3)-(30,9),2,BF', 'SCREEN 7,,1,0', '@resume'],
+             'resume': 0},
+            {'cfg': {'video': 'tandy', 'width': 40}, 'stmts': ['KEY ON', 'SCREEN ,,0,1', 'PRINT "on 0"', '@resume',
+                                                               'PCOPY 0,1', '@resume'], 'resume': 1},
             {'cfg': {'video': 'vga'}, 'stmts': [], 'resume': 1},
         ]
 
@@ -735,6 +761,8 @@ class C35(core.Check):
             for st in c['stmts']:
                 k = st.split(' ')[0].split('(')[0]
                 hist[k] = hist.get(k, 0) + 1
+            if any(x.startswith('SCREEN') and ',,' in x for x in c['stmts']) and '@resume' in c['stmts']:
+                hist['histories with page switch + fresh display'] = hist.get('histories with page switch + fresh display', 0) + 1
         self.histogram = hist
         return out
 
@@ -872,7 +900,46 @@ def gen_stmt(rng, cfg):
                        '@insert q'])
 
 
+CONTENT = ['PRINT "abc"', 'PRINT "Hello, world";', 'LOCATE 12,20:PRINT "mid"', 'PSET (5,5),1', 'LINE (3,3)-(30,9),1,BF',
+           'FOR I=1 TO 26:PRINT I:NEXT', 'COLOR 7,1:CLS', 'KEY ON', 'CIRCLE (40,40),9,1']
+# modes with more than one page per adapter (text modes always have several)
+PAGED = {'cga': [0], 'ega': [0, 7, 8, 9], 'vga': [0, 7, 8, 9], 'mda': [0], 'hercules': [0], 'tandy': [0, 1, 4],
+         'pcjr': [0, 1, 4], 'olivetti': [0], 'ega_mono': [0, 10], 'dbcs': [0, 9]}
+
+
+def gen_split_history(rng):
+    """Active page != visible page, content on both, fresh displays attached at random points."""
+    v = rng.choice(sorted(PAGED))
+    cfg = {'video': v}
+    if rng.random() < 0.3:
+        cfg['width'] = 40
+    st = []
+    m = rng.choice(PAGED[v])
+    if m or rng.random() < 0.3:
+        st.append('SCREEN %d' % m)
+    for _ in range(rng.randrange(0, 3)):
+        st.append(rng.choice(CONTENT))
+    a, b = rng.choice([(1, 0), (1, 0), (0, 1), (1, 0), (2, 1), (0, 1)])
+    st.append(rng.choice(['SCREEN ,,%d,%d' % (a, b), 'SCREEN %d,,%d,%d' % (m, a, b)]))
+    for _ in range(rng.randrange(0, 5)):
+        r = rng.random()
+        if r < 0.35:
+            st.append(rng.choice(CONTENT))
+        elif r < 0.5:
+            st.append('PCOPY %d,%d' % (rng.randrange(0, 2), rng.randrange(0, 2)))
+        elif r < 0.65:
+            st.append('@resume')
+        else:
+            st.append(gen_stmt(rng, cfg))
+    st.append('@resume')
+    for _ in range(rng.randrange(0, 4)):
+        st.append(gen_stmt(rng, cfg) if rng.random() < 0.7 else '@resume')
+    return {'cfg': cfg, 'stmts': st, 'resume': int(rng.random() < 0.7)}
+
+
 def gen_history(rng):
+    if rng.random() < 0.35:
+        return gen_split_history(rng)
     v = rng.choice(sorted(MODES))
     cfg = {'video': v}
     if rng.random() < 0.2:
@@ -884,7 +951,7 @@ def gen_history(rng):
     if rng.random() < 0.5:
         st.append('COLOR %d,%d:CLS' % (rng.randrange(0, 16), rng.randrange(1, 8)))
     for _ in range(n):
-        st.append(gen_stmt(rng, cfg))
+        st.append(gen_stmt(rng, cfg) if rng.random() > 0.06 else '@resume')
     return {'cfg': cfg, 'stmts': st, 'resume': int(rng.random() < 0.5)}
 
 
